@@ -1466,7 +1466,7 @@ fn ts_case(lf: &mut Lf, oc: &mut Oc, case: &TsCase, thorough: bool, value_limit:
     let shared = if others.is_empty() { "to_string = to_writer into every sink (same octets)" } else { "to_string" };
     for &pr in parse_routes { ts_parse_and_judge(&mut t, oc, shared, pr, s.as_bytes(), &f, want_payloads) }
     for (label, d) in &others { for &pr in parse_routes { ts_parse_and_judge(&mut t, oc, label, pr, d, &f, want_payloads) } }
-    drop(others);
+    drop(others); drop(s);
     // the pretty forms
     let _pp = Prof::new("pretty total");
     t.ev += 2;
@@ -1484,11 +1484,11 @@ fn ts_case(lf: &mut Lf, oc: &mut Oc, case: &TsCase, thorough: bool, value_limit:
                     }
                 }
             }
-            let pretty_routes: &[ParseRoute] = if thorough { &[ParseRoute::FromStr, ParseRoute::ReaderBuf, ParseRoute::ReaderSlice] } else { &[ParseRoute::FromStr, ParseRoute::ReaderBuf] };
+            let pretty_routes: &[ParseRoute] = if thorough { &[ParseRoute::FromStr, ParseRoute::ReaderBuf, ParseRoute::ReaderVar] } else { &[ParseRoute::FromStr] };
             for &pr in pretty_routes { ts_parse_and_judge(&mut t, oc, "to_string_pretty", pr, p.as_bytes(), &f, want_payloads) }
         }
     }
-    drop(s); drop(_pp); let _pv = Prof::new("value + drop");
+    drop(_pp); let _pv = Prof::new("value + drop");
     // the serde_json::Value route (a tree of maps: many times the size of the document, hence bounded)
     if case.target() <= value_limit {
         t.ev += 2;
@@ -1515,6 +1515,7 @@ fn ts_case(lf: &mut Lf, oc: &mut Oc, case: &TsCase, thorough: bool, value_limit:
 fn total_size(ctx: &Ctx, thorough: bool) {
     let (lo, hi): (u32, u32) = (16, if thorough { 28 } else { 25 });
     let hi = std::env::var("VERIF_C15_TOP_EXP").ok().and_then(|v| v.parse().ok()).unwrap_or(hi);
+    let lo = std::env::var("VERIF_C15_LO_EXP").ok().and_then(|v| v.parse().ok()).unwrap_or(lo);
     let value_limit: usize = (if thorough { 16usize << 20 } else { 4 << 20 }) + 1;
     let sp = ctx.space("json.total_size",
         "the TOTAL SIZE of the document as a quantity, crossed with every route: files whose compact JSON has exactly 2^e - 1, 2^e and 2^e + 1 octets for every e from 16 (64 KiB) to 25 (32 MiB; thorough: to 28 = 256 MiB), the size reached in ten WAYS: many small entries in each of the six sections in turn (entries of fixed width: ten-digit AS numbers, /24 and /64 prefixes, key identifiers, 91-octet keys, 0..3 providers, some with comments), ASPA assertions with ProviderAsns::MAX_COUNT = 16380 providers each (the last one with the remainder), one BGPsec assertion whose key is the document, one long ASCII comment and one long comment of quotes, backslashes, control and non-ASCII characters (held by an entry of each of the six sections in turn over the sizes); every file has an entry in every section, and the ASCII comment of its last entry pads it to the exact size. Every file goes through EVERY serialise route (to_string, to_writer into a Vec, into a sink taking <= 4093 octets per call, into a BufWriter around a sink taking <= 7 octets per call, serde_json::to_writer of the file into a sink taking <= 65521 per call; to_string_pretty and to_writer_pretty) x EVERY parse route (SlurmFile::from_str, serde_json::from_slice, SlurmFile::from_reader over a slice, over a BufReader, over a reader returning 1 / 7 / 4093 / 65521 / 3 / 8192 / 2 / 100003 ... octets per call, over a reader returning 1 octet per call; thorough: also over a BufReader of capacity 4099 around a reader returning 4093 per call); serialise routes whose octets are identical (compared as they arrive) share one parse per parse route, routes with other octets are parsed on their own; the pretty forms are parsed by from_str and from_reader over a BufReader (thorough: also over a slice); up to 4 MiB + 1 (thorough 16 MiB + 1) also to_value -> from_value and Value::to_string -> from_str. Oracle: every pairing gives back a file equal to the one written whose iter_payload yields as many items as the file has assertions (so all routes agree); a serialise route may fail only if its sink refuses. non-trivial = files whose compact JSON has exactly the target size");
@@ -1580,6 +1581,7 @@ fn main() {
     ctx.assume("RFC 8416 section 3.3 (as restated in the property) is the specification of the drop decision; serde_json is trusted as a JSON reader/writer of primitive values");
     ctx.assume("Prefix::new / MaxLenPrefix::new / KeyIdentifier::from build the values the model names (C13 checks them); covering is re-decided on integers here");
     let thorough = ctx.tier.is_thorough();
+    if std::env::var("VERIF_C15_ONLY_TS").is_ok() { total_size(&ctx, thorough); emit_failures(&ctx); ctx.finish(); }
 
     // model self-check
     {
